@@ -169,7 +169,7 @@ extern "C" int LLVMFuzzerTestOneInput(const uint8_t *data, size_t size) {
   static const uint8_t magic[8] = {'O', 'V', 'M', 'B', 0x0a, 0x0d, 0x0a, 0xff};
   bool header_ok = file.size() >= 48 && memcmp(file.data(), magic, 8) == 0 && file[9] == 1 && file[11] <= 2 && !file[12] && !file[13] && !file[14] && !file[15];
   if (header_ok) {
-    for (int k = 0; k < 4; ++k) { uint64_t v = 0; for (int i = 0; i < 8; ++i) v |= (uint64_t)file[16 + 8 * (size_t)k + (size_t)i] << (8 * i); if (v > 1000000) { ++fz::C().skipped_huge; return 0; } }
+    for (int k = 0; k < 4; ++k) { uint64_t v = 0; for (int i = 0; i < 8; ++i) v |= (uint64_t)file[16 + 8 * (size_t)k + (size_t)i] << (8 * i); if (v > 100000) { ++fz::C().skipped_huge; return 0; } }
     ++fz::C().passed_header;
     bool topo = false, prop = false;
     for (auto &c : chunks_of(file)) { if (!memcmp(&file[c.begin], "TOPO", 4)) topo = true; if (!memcmp(&file[c.begin], "PROP", 4)) prop = true; }
